@@ -418,10 +418,11 @@ def feature_modules(thorough=False):
 
     # --- global variables
     def reader_of(fb, var, nbytes):
-        """f() = sum of 31^k * byte k of var."""
+        """f() = sum of 31^k * byte k of var, over at most 8 byte positions (first, last, middle ones)."""
         fn, _ = fb.function("f", "u32", [])
         acc = fb.const(0, "u32")
-        for k in range(nbytes):
+        pos = sorted(set(range(min(nbytes, 4))) | {nbytes - 1, nbytes // 2, nbytes // 2 - 1 if nbytes > 1 else 0})
+        for k in pos:
             addr = var if k == 0 else fb.binop(var, "+", fb.const(k, "ptr"), "ptr")
             byte = fb.emit(ir.Load(addr, fb.nm("ld"), ir.u8))
             acc = fb.binop(fb.binop(acc, "*", fb.const(31, "u32"), "u32"), "+", fb.cast(byte, "u32"), "u32")
@@ -491,7 +492,7 @@ def feature_modules(thorough=False):
     r1 = fb.emit(ir.FunctionCall(fn_h, [a3, a], fb.nm("r"), ir.i32))
     fb.emit(ir.ProcedureCall(fn_p, [r1]))
     fpv = fb.cast(fb.cast(fn_h, "u64"), "ptr")
-    r2 = fb.emit(ir.FunctionCall(fpv, [zero_ := fb.const(0, "i32"), r1], fb.nm("r"), ir.i32))
+    r2 = fb.emit(ir.FunctionCall(fpv, [fb.const(0, "i32"), r1], fb.nm("r"), ir.i32))
     fb.ret(r2)
     done("calls", fb, [("f", ["i32"])])
     fb = FB("blobarg")
@@ -915,13 +916,19 @@ def judge_structure(ctx, prop, fmt, recs):
         if e.kind != "invariant" or not isinstance(idx, int) or not (1 <= idx <= len(recs)):
             raise MachineryError("unexpected TLC error in IRRoundTrip_Eval: %s\n%s" % (e, e.text[:1500]))
         fails.append((idx - 1, e.name, st.get("diag")))
+    # naming only: a construct is blamed for an unreadable module if it occurs in a feature module that TLC
+    # rejected under ReadBack and in no feature module that was read back
+    failed_idx = {idx for idx, clause, _ in fails if clause == "ReadBack"}
+    good_tags = set(BASELINE_TAGS)
+    for k, r in enumerate(recs):
+        if r["item"].key.startswith("feature:") and k not in failed_idx:
+            good_tags.update(r["tags"])
     bad_tags = {}
-    for idx, clause, diag in fails:
-        r = recs[idx]
-        if clause == "ReadBack" and r["item"].key.startswith("feature:"):
-            base = set(BASELINE_TAGS)
+    for k in sorted(failed_idx):
+        r = recs[k]
+        if r["item"].key.startswith("feature:"):
             for t in r["tags"]:
-                if t not in base:
+                if t not in good_tags:
                     bad_tags.setdefault(t, r["rec"]["outcome"])
     diffs = {}
     seen = set()
@@ -992,10 +999,6 @@ def describe(clause, diag, rec, tags, bad_tags):
         ta, tb = rec.get("ta") or [], rec.get("tb") or []
         la = "".join(map(chr, ta[ln - 1])) if 1 <= ln <= len(ta) else "<end>"
         lb = "".join(map(chr, tb[ln - 1])) if 1 <= ln <= len(tb) else "<end>"
-        words = la.split()
-        tag = "line"
-        for ia in _all_ins(a):
-            pass
         return {"tag": _line_tag(la), "what": "printed text differs at line %d: %r became %r" % (ln, la, lb)}
     plane = {"SameModuleName": "name", "SameExternals": "externals", "SameVariables": "variables",
              "SameSignatures": "funcs", "SameBlocks": "funcs", "NoDanglingValues": "funcs"}.get(clause)
@@ -1015,10 +1018,6 @@ def _line_tag(line):
     if len(w) >= 4 and w[2] == "=":
         return "assign"
     return w[0]
-
-
-def _all_ins(p):
-    return ()
 
 
 def _at(p, plane, f, clause):
